@@ -459,7 +459,7 @@ static bool do_op(const std::vector<std::string> &op) {
       {"MaxMappingSize", __MAX_MAPPING_SIZE__}, {"MaxStringLength", __MAX_STRING_LENGTH__},
       {"MaxBufferSize", __MAX_BUFFER_SIZE__}, {"MaxCallDepth", __MAX_CALL_DEPTH__},
       {"ResetDuration", __TIME_TO_RESET__}, {"CleanupDuration", __TIME_TO_CLEAN_UP__},
-      {"MaxReadFileSize", __MAX_READ_FILE_SIZE__}, {"MaxByteTransfer", __MAX_BYTE_TRANSFER__}};
+      {"MaxReadFileSize", __MAX_READ_FILE_SIZE__}, {"MaxInheritDepth", __INHERIT_CHAIN_SIZE__}, {"MaxByteTransfer", __MAX_BYTE_TRANSFER__}};
     auto it = idx.find(op[1]);
     if (it != idx.end()) CONFIG_INT(it->second) = atoi(op[2].c_str());
     return false;
